@@ -108,6 +108,12 @@ def gen_query(r, ctx, dim, pts):
     return q
 
 
+def gen_k(r, ctx, n, pts, labels):
+    k = r.range(1, n)
+    ctx.hist("k_over_n", "k=n" if k == n else ("k=1" if k == 1 else "1<k<n"))
+    return k
+
+
 ROOT_LEAF_OK = True
 
 
@@ -132,13 +138,17 @@ def gen_case(r, ctx, kinds, allow_lc_dups, big, buckets):
     ctx.hist("tree_kind", kind); ctx.hist("bucket", bucket); ctx.hist("max_depth", depth)
     for _ in range(r.range(2, 4)):
         ops.append("query " + " ".join(str(x) for x in gen_query(r, ctx, dim, pts)))
+    # getNeighbors / eval are called on BATCHES of 1-4 query points (one op = one call)
     for _ in range(r.range(1, 3)):
-        k = r.range(1, n)
-        ops.append(f"knn {k} 0 " + " ".join(str(x) for x in gen_query(r, ctx, dim, pts)))
-        ctx.hist("k_over_n", "k=n" if k == n else ("k=1" if k == 1 else "1<k<n"))
+        k = gen_k(r, ctx, n, pts, labels)
+        m = r.choice([1, 1, 2, 3, 4])
+        ops.append(f"knn {k} 0 " + " ".join(str(x) for _ in range(m) for x in gen_query(r, ctx, dim, pts)))
+        ctx.hist("batch_rows", m)
     for _ in range(r.range(1, 3)):
-        k = r.range(1, n)
-        ops.append(f"model {k} {r.below(2)} " + " ".join(str(x) for x in gen_query(r, ctx, dim, pts)))
+        k = gen_k(r, ctx, n, pts, labels)
+        m = r.choice([1, 1, 2, 3, 4])
+        ops.append(f"model {k} {r.below(2)} " + " ".join(str(x) for _ in range(m) for x in gen_query(r, ctx, dim, pts)))
+        ctx.hist("batch_rows", m)
     if r.chance(1, 4):   # a second tree over the same data
         kind2 = r.choice(kinds); b2 = r.choice(buckets)
         if (kind2 == "kd" or allow_dups) and (ROOT_LEAF_OK or n > max(b2, 1)):
@@ -150,6 +160,22 @@ def gen_case(r, ctx, kinds, allow_lc_dups, big, buckets):
 # --------------------------------------------------------------------------- classification
 def oracle_keys(line):
     return re.findall(r"!oracle (\S+)", line)
+
+
+def _known_res():
+    try:
+        data = json.load(open(os.path.join(core.VERIF, "known_findings.json")))
+    except OSError:
+        return []
+    return [re.compile(e["key"]) for e in data.get("findings", [])
+            if e.get("property") == "C17" and e.get("status", "open") == "open"]
+
+
+KNOWN_RES = _known_res()
+
+
+def is_known(key):
+    return any(rx.fullmatch(key) for rx in KNOWN_RES)
 
 
 def classify(ops, res):
@@ -171,6 +197,15 @@ def classify(ops, res):
         return f"crash:{tag}:{kinds}", f"harness aborted ({tag}) on ops {ops}"
     if res.oracle:
         keys = [k for l in res.oracle for k in oracle_keys(l)]
+        # a key that is NOT a listed finding names the case (a listed one must never hide it)
+        fresh = [k for k in keys if not is_known(k)]
+        if fresh:
+            return fresh[0], f"property oracle failed ({', '.join(sorted(set(keys)))}) on ops {ops}"
+        if res.diff_at is not None and res.diff_at < len(res.impl) and res.diff_at < len(res.model):
+            # only listed findings fire, but the implementation ALSO deviates from the model, which reproduces the
+            # listed defect exactly (next_wrong_without_leafuniform): something else is wrong
+            return (f"mismatch-beyond-known-finding:{kinds}",
+                    f"model and implementation disagree at line {res.diff_at} beyond the listed finding(s) {sorted(set(keys))} on ops {ops}")
         return keys[0], f"property oracle failed ({', '.join(sorted(set(keys)))}) on ops {ops}"
     return f"mismatch:{kinds}", f"model and implementation disagree at line {res.diff_at} of ops {ops}"
 
@@ -253,6 +288,10 @@ L1_PROBE = [["data 2 3 1 1 1 1 5 5", "labels 0 0 1", "build lc 0 1", "query 0 0"
             ["data 1 4 7 7 3 9", "labels 0 0 1 1", "build khc 0 1", "query 1"]]
 
 
+# kernel-induced metric: 2 points, the Euclidean-nearest of the query is not the kernel-nearest (finding KH1)
+KH1_PROBE = [["data 1 2 -3 2", "labels 0 1", "build khcp 0 1", "query -1", "knn 1 0 -1", "model 1 0 -1"]]
+
+
 def run(ctx):
     ctx.trusted += ["correspondence harness harness/c17.cpp + generator checks/c17.py + tools/c17_drv.py",
                     "hand-written model Model/NN.lean (TreeNearestNeighbors.h, KDTree.h, BinaryTree.h are modelled, not translated)",
@@ -287,6 +326,14 @@ def run(ctx):
     if not lc_dups_ok:
         core.correspond(ctx, "K-C17[L1-probe]", L1_PROBE, hcmd, dcmd, classify, env=ENV, keep_prefix=3)
 
+    # does a KHCTree over a non-linear kernel search in the kernel's metric? (finding KH1)  While it does not,
+    # the generated stream keeps the kernel-based trees on the linear kernel (where both metrics coincide)
+    res = [core.run_case(ctx, hcmd, dcmd, c, env=ENV) for c in KH1_PROBE]
+    khcp_ok = all(x.ok for x in res)
+    ctx.cov["nonlinear_kernel_trees_generated"] = khcp_ok
+    if not khcp_ok:
+        correspond(ctx, "K-C17[KH1-probe]", KH1_PROBE, hcmd, dcmd)
+
     # does IterativeNNQuery survive a tree whose root is a leaf? (finding R1)
     res = [core.run_case(ctx, hcmd, dcmd, c, env=ENV) for c in R1_PROBE]
     root_leaf_ok = not any(x.crash for x in res)
@@ -301,7 +348,8 @@ def run(ctx):
     groups = [
         ("kd,bucket=1", [gen_case(r, ctx, ["kd"], lc_dups_ok, True, [1, 1, 1, 0]) for _ in range(nA)]),
         ("kd,bucket>1", [gen_case(r, ctx, ["kd"], lc_dups_ok, True, [2, 3, 4]) for _ in range(nB)]),
-        ("lc+khc", [gen_case(r, ctx, ["lc", "khc"], lc_dups_ok, True, [1, 1, 0, 2, 3, 4]) for _ in range(nC)]),
+        ("lc+khc", [gen_case(r, ctx, ["lc", "khc", "khcp"] if khcp_ok else ["lc", "khc"], lc_dups_ok, True, [1, 1, 0, 2, 3, 4])
+                    for _ in range(nC)]),
     ]
     allcases = [c for _, cs in groups for c in cs]
     ctx.cov["evaluations"] = len(allcases) + len(corpus)
